@@ -141,7 +141,23 @@ def st_crc_lookalike():
     conf = M.st_conf(crc=1).filter(lambda c: c["seqw"] >= 2)
     kinds = st.sampled_from(["finished", "finished", "eof", "metadata"])
     pdu = kinds.flatmap(lambda k: M.st_pdu(k, conf, small=True))
-    return st.tuples(pdu, st.sampled_from([0x06, 0x06, 0x01, 0x02, 0x05, 0x04, 0x00]), st.sampled_from([0, 1, 2, 4, 8, 3]), st.sampled_from([0, 2, 2, 1, 4]), st.integers(0, 2)).map(build)
+    # one generated PDU, one trailer type: every pseudo length in {0,1,2,3,4,8} x every suffix that is 0, 1, 2 or 4 octets longer than it
+    return st.tuples(pdu, st.sampled_from([0x06, 0x06, 0x01, 0x02, 0x05, 0x04, 0x00]), st.integers(0, 2)).map(
+        lambda t: {"variants": [build((t[0], t[1], tlen, extra, t[2])) for tlen in (0, 1, 2, 3, 4, 8) for extra in (0, 1, 2, 4)]})
+
+
+def check_lookalike(c):
+    devs, n = [], 0
+    seen = set()
+    for v in c["variants"]:
+        r = check_suffix(v)
+        d, k = r if isinstance(r, tuple) else (r, 1)
+        n += k
+        for x in d:
+            if x.sub not in seen:
+                seen.add(x.sub)
+                devs.append(x)
+    return devs, max(n, 1)
 
 
 # ---- back-to-back units split purely by the reported lengths ----------------------------------------------------
@@ -291,10 +307,11 @@ CLAUSES.append(Clause(
     id="C09.crc_lookalike",
     doc="EOF / Finished / Metadata PDUs with CRC whose own CRC-16 trailer is made to read like a TLV header (type 06 / 01 / 02 / 05 / 04 / 00, small length) by solving for two "
         "sequence-number octets, followed by a suffix of the matching size: decoded exactly as the PDU alone or refused - the trailer and what follows never become a fault location, response or option",
-    strategy=st_crc_lookalike, check=check_suffix, nontrivial=lambda c: True, classify=lambda c: [c["entry"].split(".")[0], "trailer type %s" % c["raw"][-4:-2]],
+    strategy=st_crc_lookalike, check=check_lookalike, nontrivial=lambda c: True, weight_by_evals=True,
+    classify=lambda c: [c["variants"][0]["entry"].split(".")[0], "trailer type %s" % c["variants"][0]["raw"][-4:-2]],
     required=["FinishedPdu", "EofPdu", "MetadataPdu", "PduFactory", "trailer type 06", "trailer type 01"],
     rule="every case is non-trivial by construction (2^-16 rare for random fields)",
-    n={"quick": 400, "thorough": 4000},
+    n={"quick": 150, "thorough": 1500},
 ))
 
 PROPERTY = Property(
